@@ -29,8 +29,9 @@ def spec(tier):
                overcommit=oc, t2=t2, sus_at=-1, m1=0, m2=0, m3=0)
         for t2 in ((0, 1, 2) if thorough else (1,)):
             for sus in ((1, 2) if thorough else (1,)):
-                mk(f"ram_oc{int(oc)}_t{t2}_s{sus}", dict(cap_ram=I(0, 64), r1=I(-1, 65), r2=I(-1, 65)),
-                   overcommit=oc, t2=t2, sus_at=sus, m1=0, m2=0, m3=0, r3=5, timeout=240)
+                for lo, hi in ((-1, 19), (20, 39), (40, 65)):
+                    mk(f"ram_oc{int(oc)}_t{t2}_s{sus}_r{lo}", dict(cap_ram=I(0, 64), r1=I(lo, hi), r2=I(-1, 65)),
+                       overcommit=oc, t2=t2, sus_at=sus, m1=0, m2=0, m3=0, r3=5, timeout=240)
     # V1c: both dimensions of one late job + capacities
     for oc in (False, True):
         mk(f"mixed_oc{int(oc)}", dict(cap_cpu=I(0, 8), cap_ram=I(0, 64), c2=I(-1, 9), r2=I(-1, 65)),
